@@ -41,6 +41,43 @@ func genG17Wiring(repo string, w *Out) error {
 			return true
 		})
 	}
+	// helper functions of http_proxy.go applied to the name before it reaches Match (e.g. asciiHostname)
+	helpers := map[string]bool{}
+	for _, d := range hf.AST.Decls {
+		fd, ok := d.(*ast.FuncDecl)
+		if !ok || fd.Body == nil {
+			continue
+		}
+		ast.Inspect(fd.Body, func(x ast.Node) bool {
+			ce, ok := x.(*ast.CallExpr)
+			if !ok {
+				return true
+			}
+			if sel, isSel := ce.Fun.(*ast.SelectorExpr); isSel && sel.Sel.Name == "Match" &&
+				(strings.Contains(hf.Src(sel.X), "Domains") || fd.Name.Name == "denyDomains") {
+				for _, a := range ce.Args {
+					ast.Inspect(a, func(y ast.Node) bool {
+						if c2, ok := y.(*ast.CallExpr); ok {
+							if id, ok := c2.Fun.(*ast.Ident); ok {
+								helpers[id.Name] = true
+							}
+						}
+						return true
+					})
+				}
+			}
+			return true
+		})
+	}
+	for _, d := range hf.AST.Decls {
+		if fd, ok := d.(*ast.FuncDecl); ok && fd.Body != nil && fd.Recv == nil && helpers[fd.Name.Name] {
+			wiring = append(wiring, "func "+fd.Name.Name+": "+hf.Src(fd.Body))
+		}
+	}
+	// the whole modifier that consults the deny list
+	if fd, err := hf.Func("HTTPProxy.denyDomains"); err == nil {
+		wiring = append(wiring, "denyDomains body: "+hf.Src(fd.Body))
+	}
 	if len(wiring) < 5 {
 		return fmt.Errorf("http_proxy.go: expected the three Match call sites and the two installers, found %q", wiring)
 	}
